@@ -191,3 +191,27 @@ theorem list_wf_imp_wfML : (l : List Seg) → (inArg : Bool) → wfL inArg l = t
 end
 
 end CV.Template
+
+namespace CV.Template
+
+theorem match_of_wellFormedBrace (r : Str) (h : WellFormedBrace r) : (matchBraced r).1 ≠ .invalid := by
+  obtain ⟨n, tail, rfl, hn, _, h⟩ := h
+  rcases h with h | ⟨o, r3, rfl, hcl⟩
+  · cases tail with
+    | nil => simp at h
+    | cons c X =>
+      simp at h; subst h
+      rw [matchBraced_var n X hn]; simp
+  · rw [matchBraced_op n o r3 hn]
+    cases hl : lastCloseLen r3 with
+    | none => exact absurd hcl ((lastCloseLen_none_iff r3).1 hl)
+    | some k => simp
+
+/-- the regexp takes its `invalid` alternative after `${` exactly on the texts that are not `WellFormedBrace` -/
+theorem matchBraced_invalid_iff (r : Str) : (matchBraced r).1 = .invalid ↔ ¬ WellFormedBrace r := by
+  constructor
+  · intro h hw; exact match_of_wellFormedBrace r hw h
+  · intro h
+    apply Classical.byContradiction; intro hn; exact h (wellFormedBrace_of_match r hn)
+
+end CV.Template
